@@ -3,6 +3,7 @@ package main
 import (
 	"fmt"
 	"go/ast"
+	"go/token"
 	"go/types"
 	"regexp"
 	"sort"
@@ -266,6 +267,74 @@ func checkC38(c *Check) {
 			return ok && cn.Fn != nil && cn.Fn.Name() == "setupCall"
 		})
 		c.Ob("calls/result-channel-set-before-registration", fn, a >= 0 && b > a, r.pos(ir.Info.Decl.Pos()), fmt.Sprintf("the result channel is chosen (stmt %d) before setupCall registers the call (stmt %d)", a, b))
+	}
+	// (H') a request pointer found in the connection's shared write queue may belong to a call that already finished
+	// (timed out / cancelled before sending): the *Request is then back in the pool and owned by another call. Entries of
+	// clientConn.writeQ are therefore only compared or copied, never dereferenced; the query id is read from the entry's
+	// own copy. (Entries moved to the send loop's local queue were confirmed against the call table.)
+	{
+		nq, bad := 0, token.NoPos
+		badFn := ""
+		for _, name := range sortedKeys(r.funcs) {
+			fi := r.funcs[name]
+			if !strings.HasPrefix(name, P) || fi.Decl.Body == nil {
+				continue
+			}
+			info := fi.Pkg.TypesInfo
+			isSharedQueue := func(e ast.Expr) bool {
+				sel, ok := ast.Unparen(e).(*ast.SelectorExpr)
+				if !ok {
+					return false
+				}
+				sl, ok := info.Selections[sel]
+				return ok && sl.Kind() == types.FieldVal && sl.Obj().Name() == "writeQ" && namedStructName(info.TypeOf(sel.X)) == "clientConn"
+			}
+			// does e denote `<entry>.req` with entry an element of the shared queue?
+			elemVars := map[types.Object]bool{}
+			ast.Inspect(fi.Decl.Body, func(n ast.Node) bool {
+				if rs, ok := n.(*ast.RangeStmt); ok && isSharedQueue(rs.X) && rs.Value != nil {
+					if id, ok := rs.Value.(*ast.Ident); ok && info.Defs[id] != nil {
+						elemVars[info.Defs[id]] = true
+						nq++
+					}
+				}
+				return true
+			})
+			isQueuedReq := func(e ast.Expr) bool {
+				sel, ok := ast.Unparen(e).(*ast.SelectorExpr)
+				if !ok || sel.Sel.Name != "req" {
+					return false
+				}
+				if sl, ok := info.Selections[sel]; !ok || sl.Kind() != types.FieldVal || namedStructName(info.TypeOf(sel.X)) != "writeReqCancel" {
+					return false
+				}
+				switch x := ast.Unparen(sel.X).(type) {
+				case *ast.Ident:
+					return elemVars[info.Uses[x]]
+				case *ast.IndexExpr:
+					return isSharedQueue(x.X)
+				}
+				return false
+			}
+			ast.Inspect(fi.Decl.Body, func(n ast.Node) bool {
+				switch x := n.(type) {
+				case *ast.SelectorExpr:
+					if isQueuedReq(x.X) && bad == token.NoPos {
+						bad, badFn = x.Pos(), fi.Name()
+					}
+				case *ast.StarExpr:
+					if isQueuedReq(x.X) && bad == token.NoPos {
+						bad, badFn = x.Pos(), fi.Name()
+					}
+				}
+				return true
+			})
+		}
+		at := ""
+		if bad != token.NoPos {
+			at = r.pos(bad)
+		}
+		c.Ob("calls/queued-request-not-dereferenced", "clientConn.writeQ", nq > 0 && bad == token.NoPos, at, fmt.Sprintf("%d loops over the shared write queue; a queued *Request is dereferenced: %v %s", nq, bad != token.NoPos, badFn))
 	}
 	// (I) one owner per response buffer: finishCall stores the receive loop's buffer pointer in the call (so that the
 	// caller's PutResponse returns it to the pool) — on every such path it must report the buffer as taken, otherwise the
